@@ -122,3 +122,26 @@ CORPUS += [
     V("C06", "pctsp-checker-count-subtracts-the-customers", _PCT, "sorted_actions.size(-1) - (sorted_actions == 0).int().sum(-1)", "sorted_actions.size(-1) - (sorted_actions != 0).int().sum(-1)", "C06.n"),
     V("C06", "eq-pctsp-checker-count-from-unsorted-actions", _PCT, "sorted_actions.size(-1) - (sorted_actions == 0).int().sum(-1)", "(actions.shape[-1] - (actions == 0).sum(-1))", None),
 ]
+
+_MOE = "rl4co/models/nn/moe.py"
+_INI = "rl4co/models/nn/env_embeddings/init.py"
+CORPUS += [
+    V("C14", "moe-gating-noise-also-in-eval", _MOE, "        if self.noisy_gating and train:", "        if self.noisy_gating:", "C14.g"),
+    V("C14", "moe-gating-noise-when-not-training", _MOE, "        if self.noisy_gating and train:", "        if self.noisy_gating and not train:", "C14.g"),
+    V("C14", "attention-dropout-ungated", "rl4co/models/nn/attention.py", "            dropout_p=self.attention_dropout if self.training else 0.0,", "            dropout_p=self.attention_dropout,", "C14.g"),
+]
+
+_SD = R + "sdvrp/env.py"
+CORPUS += [
+    V("C06", "sdvrp-checker-room-adds-the-load", _SD, 'td["vehicle_capacity"].squeeze(-1) - used_cap', 'td["vehicle_capacity"].squeeze(-1) + used_cap', "C06.q"),
+    V("C06", "sdvrp-checker-demand-grows", _SD, "demands[rng, a] -= d", "demands[rng, a] += d", "C06.q"),
+    V("C06", "sdvrp-checker-load-shrinks", _SD, "used_cap += d", "used_cap -= d", "C06.q"),
+    V("C06", "sdvrp-checker-depot-column-positive", _SD, 'torch.cat((-td["vehicle_capacity"], td["demand"]), 1)', 'torch.cat((td["vehicle_capacity"], td["demand"]), 1)', "C06.q"),
+    V("C06", "eq-sdvrp-checker-minimum-commuted", _SD, 'd = torch.min(demands[rng, a], td["vehicle_capacity"].squeeze(-1) - used_cap)', 'd = torch.minimum(-used_cap + td["vehicle_capacity"].squeeze(-1), demands[rng, a])', None),
+    V("C03", "flp-reward-min-over-the-unchosen", _FLP, 'orig_distances.masked_fill(~chosen.unsqueeze(-1), float("inf"))\n            .min(1)', 'orig_distances.masked_fill(chosen.unsqueeze(-1), float("inf"))\n            .min(1)', "C03.e"),
+    V("C08", "flp-distances-min-over-the-unchosen", _FLP, 'orig_distances.masked_fill(~chosen.unsqueeze(-1), float("inf")).min(dim=1).values', 'orig_distances.masked_fill(chosen.unsqueeze(-1), float("inf")).min(dim=1).values', "C08.d"),
+    V("C08", "flp-distances-filled-with-minus-inf", _FLP, 'orig_distances.masked_fill(~chosen.unsqueeze(-1), float("inf")).min(dim=1).values', 'orig_distances.masked_fill(~chosen.unsqueeze(-1), -float("inf")).min(dim=1).values', "C08.d"),
+    V("C02", "ffsp-wait-when-any-job-in-stage", _FF, "(job_in_stage & (job_wait_time > 0)).any(dim=-1)", "(job_in_stage | (job_wait_time > 0)).any(dim=-1)", "C02.i"),
+    V("C02", "ffsp-wait-for-jobs-of-this-stage", _FF, "(job_loc < stage_idx[:, None]).any(dim=-1)", "(job_loc <= stage_idx[:, None]).any(dim=-1)", "C02.i"),
+    V("C02", "eq-ffsp-wait-column-or", _FF, "job_in_previous_stages + job_waiting_in_stage + done", "job_in_previous_stages | job_waiting_in_stage | done", None),
+]
